@@ -52,6 +52,7 @@ class Profile:
         self.timeouts = None  # strategy for per-type timeouts or None
         self.preload = 0  # max unrelated events preloaded per bus by a dedicated first actor
         self.burst = [2, 3, 5]
+        self.acc_names = ['event_result', 'event_results_list', 'event_results_by_handler_name']  # accessors the 'acc' actor op may call
         self.fan = 0.0  # probability that one root handler fans out more children than the bus accepts (back-pressure inside a handler)
         self.__dict__.update(kw)
 
@@ -183,7 +184,7 @@ def scenario(draw, p: Profile):
             elif k == 'idle':
                 ops.append(['idle', draw(st.integers(0, nb - 1)), None])
             elif k == 'acc':
-                ops.append(['acc', draw(st.integers(0, 7)), draw(st.sampled_from(['event_result', 'event_results_list', 'event_results_by_handler_name'])), draw(st.booleans()), draw(st.booleans())])
+                ops.append(['acc', draw(st.integers(0, 7)), draw(st.sampled_from(p.acc_names)), draw(st.booleans()), draw(st.booleans())])
         actors.append(ops)
     sc = {
         'buses': buses,
